@@ -35,8 +35,8 @@ WITNESSES = [
 
     # ---- breaking edits for the checks introduced with the evaluation on the tensor-algebra model
     dict(id="c14-name-guard-removed", prop="C14", file=S, expect="R14e",
-         old='    if not isinstance(t_name, str):\n        raise Inputerror("Tensor name needs to be provided as string.")\n\n    ret = {}  # expr sorted by tensor block',
-         new='    ret = {}  # expr sorted by tensor block'),
+         old='    if not isinstance(t_name, str):\n        raise Inputerror("Tensor name needs to be provided as string.")\n',
+         new=''),
     dict(id="c14-copy-dropped", prop="C14", file=S, expect="R14b",
          old="            symmetrized_term += term.copy().permute(*perms) * sym_factor", new="            symmetrized_term += term.permute(*perms) * sym_factor"),
     dict(id="c14-sym-start-alias", prop="C14", file=S, expect=["R14b", "R14a"],
@@ -53,10 +53,10 @@ WITNESSES = [
     dict(id="c14-used-names-tensor", prop="C14", file=S, expect="R14c",
          old="        for s in indices:\n            if (idx_key := s.space_and_spin) not in used_indices:\n                used_indices[idx_key] = set()\n            used_indices[idx_key].add(s.name)\n\n        if tensor_target_indices:",
          new="        if tensor_target_indices:"),
-    dict(id="c14-deriv-sign-lost", prop="C14", file=D, expect=["R14e", "R14b"],
+    dict(id="c14-deriv-sign-lost", prop="C14", file=D, expect=["R14e", "R14b", "R14c"],
          old="            if (factor := obj.prefactor) < 0:\n                deriv_contrib *= factor\n", new=""),
     dict(id="c14-deriv-targets-ignored", prop="C14", file=D, expect="R14e",
-         old="            _, perms = minimize_tensor_indices(obj.idx, target_names_by_space)", new="            _, perms = minimize_tensor_indices(obj.idx, {})"),
+         old="                obj.terms[0].tensors[0].idx, target_names_by_space\n", new="                obj.terms[0].tensors[0].idx, {}\n"),
     dict(id="c14-perms-not-applied", prop="C14", file=S, expect=["R14a", "R14b", "R14c"],
          old="        term: e.Expr = term.permute(*perms)\n", new="        term: e.Expr = term * 1\n"),
     dict(id="c14-adc-bks-accepted", prop="C14", file=S, expect="R14a",
@@ -148,8 +148,8 @@ WITNESSES = [
     # ---- call history (R14f): a module-level cache of the tensor symmetry
     # mirrors seeded/C14-5: the key forgets that the minimal indices depend on the target names of the term
     dict(id="c14-stale-symmetry-cache", prop="C14", file=D, expect="R14f", edits=[
-        ("from sympy import Rational, diff, S\n",
-         "from sympy import Rational, diff, S\n\n_block_symmetry_cache: dict[tuple, dict] = {}\n\n\n"
+        ("from sympy import Rational, diff, S, Pow\n",
+         "from sympy import Rational, diff, S, Pow\n\n_block_symmetry_cache: dict[tuple, dict] = {}\n\n\n"
          "def _block_symmetry(obj: e.Term) -> dict:\n    tensor = obj.tensors[0]\n"
          "    key = (tensor.name, tensor.space, tensor.spin, tensor.exponent,\n           tensor.bra_ket_sym, tensor.type_as_str)\n"
          "    if key not in _block_symmetry_cache:\n        _block_symmetry_cache[key] = obj.symmetry()\n"
@@ -158,13 +158,13 @@ WITNESSES = [
     ]),
     # a remembered block key -> Expr across calls: the second call adds into the first call's result
     dict(id="c14-stale-result-cache", prop="C14", file=D, expect="R14f", edits=[
-        ("from sympy import Rational, diff, S\n", "from sympy import Rational, diff, S\n\n_blocks: dict = {}\n"),
+        ("from sympy import Rational, diff, S, Pow\n", "from sympy import Rational, diff, S, Pow\n\n_blocks: dict = {}\n"),
         ("    derivative = {}\n    for term in expr.terms:", "    derivative = _blocks\n    for term in expr.terms:"),
     ]),
     # correct cache: the key is the minimised tensor itself (with its indices) and the assumptions
     dict(id="c14-ok-symmetry-cache-full-key", prop="C14", file=D, expect=None, edits=[
-        ("from sympy import Rational, diff, S\n",
-         "from sympy import Rational, diff, S\n\n_symmetry_cache: dict[tuple, dict] = {}\n\n\n"
+        ("from sympy import Rational, diff, S, Pow\n",
+         "from sympy import Rational, diff, S, Pow\n\n_symmetry_cache: dict[tuple, dict] = {}\n\n\n"
          "def _cached_symmetry(obj: e.Term) -> dict:\n"
          "    key = (obj.sympy, obj.real, obj.sym_tensors, obj.antisym_tensors)\n"
          "    if key not in _symmetry_cache:\n        _symmetry_cache[key] = obj.symmetry()\n"
@@ -173,8 +173,8 @@ WITNESSES = [
     ]),
     # correct cache: block key extended by the reserved target names the minimal indices depend on
     dict(id="c14-ok-symmetry-cache-target-names", prop="C14", file=D, expect=None, edits=[
-        ("from sympy import Rational, diff, S\n",
-         "from sympy import Rational, diff, S\n\n_symmetry_cache: dict[tuple, dict] = {}\n\n\n"
+        ("from sympy import Rational, diff, S, Pow\n",
+         "from sympy import Rational, diff, S, Pow\n\n_symmetry_cache: dict[tuple, dict] = {}\n\n\n"
          "def _cached_symmetry(obj: e.Term, reserved: dict) -> dict:\n    tensor = obj.tensors[0]\n"
          "    names = tuple(sorted((k, tuple(sorted(v))) for k, v in reserved.items()))\n"
          "    key = (tensor.name, tensor.space, tensor.spin, tensor.exponent, tensor.bra_ket_sym,\n"
@@ -185,8 +185,8 @@ WITNESSES = [
     ]),
     # the short key of the seed is fine when the cache lives for one term only (emptied whenever the target names are rebuilt)
     dict(id="c14-ok-symmetry-cache-cleared", prop="C14", file=D, expect=None, edits=[
-        ("from sympy import Rational, diff, S\n",
-         "from sympy import Rational, diff, S\n\n_block_symmetry_cache: dict[tuple, dict] = {}\n\n\n"
+        ("from sympy import Rational, diff, S, Pow\n",
+         "from sympy import Rational, diff, S, Pow\n\n_block_symmetry_cache: dict[tuple, dict] = {}\n\n\n"
          "def _block_symmetry(obj: e.Term) -> dict:\n    tensor = obj.tensors[0]\n"
          "    key = (tensor.name, tensor.space, tensor.spin, tensor.exponent,\n           tensor.bra_ket_sym, tensor.type_as_str)\n"
          "    if key not in _block_symmetry_cache:\n        _block_symmetry_cache[key] = obj.symmetry()\n"
@@ -197,7 +197,7 @@ WITNESSES = [
     # ---- power rule instead of the placeholder symbol (mirrors seeded/C14-7)
     # n T^(n-1) multiplied into the contribution BEFORE the symmetrisation: the re-inserted power is permuted on its own
     dict(id="c14-power-rule-before-symmetrisation", prop="C14", file=D, expect="R14d", edits=[
-        ("from sympy import Rational, diff, S\n", "from sympy import Rational, diff, S, Pow\n"),
+        ("from sympy import Rational, diff, S, Pow\n", "from sympy import Rational, diff, S, Pow\n"),
         ("            symmetrized_deriv_contrib = deriv_contrib.sympy * x**exponent\n            for perms, factor in tensor_sym.items():\n                symmetrized_deriv_contrib += (\n                    deriv_contrib.copy().permute(*perms).sympy *\n                    factor * x**exponent\n                )\n            # - compute the derivative with respect to x\n            symmetrized_deriv_contrib = diff(symmetrized_deriv_contrib, x)\n", ""),
         ("            symmetrized_deriv_contrib = (\n                symmetrized_deriv_contrib.subs(x, obj.base)\n            )\n",
          "            if exponent != 1:\n                deriv_contrib *= exponent * Pow(obj.base, exponent - 1)\n"
@@ -208,7 +208,7 @@ WITNESSES = [
     ]),
     # the same power rule applied AFTER the symmetrisation of the remainder is the derivative
     dict(id="c14-ok-power-rule-after-symmetrisation", prop="C14", file=D, expect=None, edits=[
-        ("from sympy import Rational, diff, S\n", "from sympy import Rational, diff, S, Pow\n"),
+        ("from sympy import Rational, diff, S, Pow\n", "from sympy import Rational, diff, S, Pow\n"),
         ("            symmetrized_deriv_contrib = deriv_contrib.sympy * x**exponent\n            for perms, factor in tensor_sym.items():\n                symmetrized_deriv_contrib += (\n                    deriv_contrib.copy().permute(*perms).sympy *\n                    factor * x**exponent\n                )\n            # - compute the derivative with respect to x\n            symmetrized_deriv_contrib = diff(symmetrized_deriv_contrib, x)\n",
          "            symmetrized_deriv_contrib = deriv_contrib.sympy\n"
          "            for perms, factor in tensor_sym.items():\n"
@@ -280,4 +280,59 @@ WITNESSES = [
     dict(id="c14-f28-unify-overwrites", prop="C14", file=S, expect="R14c",
          old="        elif contrib.provided_target_idx is None:\n            contrib.set_target_idx(collected.provided_target_idx)\n",
          new="        else:\n            contrib.set_target_idx(collected.provided_target_idx)\n"),
+    # ---- F43: several occurrences are removed in the order of their blocks
+    dict(id="c14-f43-revert", prop="C14", file=S, expect="R14e",
+         old="        tensors.sort(key=block_name)\n", new=""),
+    dict(id="c14-f43-sort-descending", prop="C14", file=S, expect="R14e",
+         old="        tensors.sort(key=block_name)\n", new="        tensors.sort(key=block_name, reverse=True)\n"),
+    dict(id="c14-ok-f43-sorted-rebinding", prop="C14", file=S, expect=None,
+         old="        tensors.sort(key=block_name)\n", new="        tensors = sorted(tensors, key=lambda occurrence: block_name(occurrence))\n"),
+    dict(id="c14-ok-f43-decorate-sort", prop="C14", file=S, expect=None,
+         old="        tensors.sort(key=block_name)\n",
+         new="        decorated = [(block_name(t), n, t) for n, t in enumerate(tensors)]\n        decorated.sort(key=lambda entry: entry[:2])\n"
+             "        tensors = [entry[2] for entry in decorated]\n"),
+    # ---- F44: derivative lifts repeated and target indices on the tensor
+    dict(id="c14-f44-revert", prop="C14", file=D, expect="R14c", edits=[
+        ("            obj, deltas = _lift_target_and_repeated_idx(\n                obj, term, target_names_by_space\n            )\n            deriv_contrib *= deltas\n",
+         "            obj = e.Expr(obj.sympy, **obj.assumptions)\n"),
+    ]),
+    dict(id="c14-f44-deltas-dropped", prop="C14", file=D, expect="R14c",
+         old="            deriv_contrib *= deltas\n", new=""),
+    dict(id="c14-f44-targets-not-lifted", prop="C14", file=D, expect="R14c",
+         old="        if s.name not in target_names.get(idx_key, []) and s not in seen:", new="        if s not in seen:"),
+    dict(id="c14-f44-repeated-not-lifted", prop="C14", file=D, expect="R14c",
+         old="        if s.name not in target_names.get(idx_key, []) and s not in seen:", new="        if s.name not in target_names.get(idx_key, []):"),
+    dict(id="c14-f44-amplitude-groups", prop="C14", file=D, expect=["R14c", "R14e"],
+         old="            n_l = len(base.lower)\n            upper, lower = indices[n_l:], indices[:n_l]\n        else:  # symtensor / antisymtensor, indices = upper, lower\n            n_u = len(base.upper)",
+         new="            n_l = len(base.lower)\n            upper, lower = indices[:n_l], indices[n_l:]\n        else:  # symtensor / antisymtensor, indices = upper, lower\n            n_u = len(base.upper)"),
+    dict(id="c14-ok-f44-positions-first", prop="C14", file=D, expect=None, edits=[
+        ("    deltas = S.One\n    seen = set()\n    for pos, s in enumerate(indices):\n        idx_key = s.space_and_spin\n"
+         "        if s.name not in target_names.get(idx_key, []) and s not in seen:\n            seen.add(s)\n            continue\n",
+         "    deltas = S.One\n    first = {}\n    for pos, s in enumerate(indices):\n        first.setdefault(s, pos)\n"
+         "    for pos, s in enumerate(list(indices)):\n        idx_key = s.space_and_spin\n"
+         "        is_target = s.name in target_names.get(idx_key, [])\n        if not is_target and first[s] == pos:\n            continue\n"),
+    ]),
+    dict(id="c14-ok-f44-delta-list", prop="C14", file=D, expect=None, edits=[
+        ("    deltas = S.One\n    seen = set()\n", "    deltas = S.One\n    replaced = []\n    seen = set()\n"),
+        ("        deltas *= KroneckerDelta(s, new_s)\n        indices[pos] = new_s\n", "        replaced.append((s, new_s))\n        indices[pos] = new_s\n"),
+        ("    if deltas is S.One:  # nothing to do\n", "    for old_s, new_s in replaced:\n        deltas = KroneckerDelta(old_s, new_s) * deltas\n    if not replaced:  # nothing to do\n"),
+    ]),
+    # ---- F45: remove_tensor works on an expanded copy
+    dict(id="c14-f45-revert", prop="C14", file=S, expect="R14e",
+         old="    expr = e.Expr(expr.sympy.expand(), **expr.assumptions)\n", new=""),
+    dict(id="c14-f45-expands-the-input", prop="C14", file=S, expect="R14e",
+         old="    expr = e.Expr(expr.sympy.expand(), **expr.assumptions)\n", new="    expr = expr.expand()\n"),
+    dict(id="c14-f45-assumptions-lost", prop="C14", file=S, expect=["R14e", "R14c"],
+         old="    expr = e.Expr(expr.sympy.expand(), **expr.assumptions)\n", new="    expr = e.Expr(expr.sympy.expand())\n"),
+    dict(id="c14-f45-denominator-guard-removed", prop="C14", file=S, expect="R14e",
+         old="                if isinstance(obj, e.Polynom) and any(\n                        t.name == t_name\n                        for t in obj.sympy.atoms(SymbolicTensor)):",
+         new="                if False:"),
+    dict(id="c14-ok-f45-copy-then-expand", prop="C14", file=S, expect=None,
+         old="    expr = e.Expr(expr.sympy.expand(), **expr.assumptions)\n", new="    expr = expr.copy().expand()\n"),
+    dict(id="c14-ok-f45-guard-as-loop", prop="C14", file=S, expect=None,
+         old="                if isinstance(obj, e.Polynom) and any(\n                        t.name == t_name\n                        for t in obj.sympy.atoms(SymbolicTensor)):\n"
+             "                    raise NotImplementedError(",
+         new="                hidden = []\n                if isinstance(obj, e.Polynom):\n                    for t in obj.sympy.atoms(SymbolicTensor):\n"
+             "                        if t.name == t_name:\n                            hidden.append(t)\n                if hidden:\n"
+             "                    raise NotImplementedError("),
 ]
